@@ -149,6 +149,24 @@ fn eval_inner(bytes: &[u8], nwk: &[u8; 16], app: &[u8; 16], fcnt: u32, root: Opt
                     if !want {
                         v.push((format!("C02|checked-decode-accepts-forged|{mc}"), hex(bytes)));
                     }
+                    // The one-call path and the two-call path (validate_mic, then decrypt_in_place) are the same
+                    // decoder: same bytes left in the buffer, and decrypting what the checked call left behind
+                    // restores what was received - whatever relation the caller's counter has to the wire counter.
+                    let checked_out = dec.as_bytes().to_vec();
+                    let mut two = bytes.to_vec();
+                    if DecryptedDataPayload::decrypt_in_place(&mut two, Some(&n), Some(&a), fcnt).is_ok() && two != checked_out {
+                        v.push((
+                            format!("C02|checked-decode-differs-from-decrypt-in-place|{}", if fcnt as u16 == rv.fcnt16 { "counter-matches-wire" } else { "counter-low-half-differs-from-wire" }),
+                            format!("fcnt {fcnt:#x}, frame {}: check_mic_and_decrypt_in_place left {}, decrypt_in_place left {}", hex(bytes), hex(&checked_out), hex(&two)),
+                        ));
+                    }
+                    let mut again = checked_out.clone();
+                    if DecryptedDataPayload::decrypt_in_place(&mut again, Some(&n), Some(&a), fcnt).is_ok() && again != bytes {
+                        v.push((
+                            format!("C02|involution-after-checked-decode|{}", if fcnt as u16 == rv.fcnt16 { "counter-matches-wire" } else { "counter-low-half-differs-from-wire" }),
+                            format!("fcnt {fcnt:#x}: received {}, after check_mic_and_decrypt_in_place + decrypt_in_place {}", hex(bytes), hex(&again)),
+                        ));
+                    }
                     // plaintext is only defined when the hint agrees with the wire half
                     if fcnt as u16 == rv.fcnt16 {
                         let plain = refcodec::data_plain(&rv, nwk, app, fcnt);
@@ -518,6 +536,22 @@ pub fn run(tier: Tier, replay: Option<&str>) {
     roots.par_iter().for_each(|r| {
         let mut local: Vec<u64> = vec![fx(&r.bytes)];
         present(r, &r.bytes, &r.label, r.desc.as_ref(), true);
+        // the same frame with a MIC that verifies for a counter whose low half is NOT the wire counter (and for the
+        // next epoch): authentic "for the given 32-bit counter", so the code behind a successful check is reached
+        // with a counter that disagrees with the frame's own FCnt field
+        if let Ok(dv) = refcodec::parse_data(&r.bytes) {
+            let dir = if dv.uplink() { 0 } else { 1 };
+            for y in [r.fcnt ^ 0x0001, r.fcnt.wrapping_add(0x0100), r.fcnt ^ 0x8000, r.fcnt.wrapping_add(0x1_0000), r.fcnt ^ 0xFFFF_FFFF] {
+                let mut b = r.bytes.clone();
+                let n = b.len();
+                let mic = refcodec::data_mic(&KEYS[r.nwk], dir, dv.devaddr, y, &b[..n - 4]);
+                b[n - 4..].copy_from_slice(&mic);
+                let ry = Root { bytes: b.clone(), desc: None, nwk: r.nwk, app: r.app, fcnt: y, label: format!("{}>remic", r.label), sweep: false };
+                local.push(fx(&b));
+                transitions.fetch_add(1, Ordering::Relaxed);
+                present(&ry, &b, &ry.label, None, false);
+            }
+        }
         if r.sweep {
             states.lock().unwrap().extend(local);
             return;
@@ -587,7 +621,7 @@ pub fn run(tier: Tier, replay: Option<&str>) {
         "samples": samples,
         "evaluations": ctx.evals(),
         "distinct_nontrivial": nstates,
-        "rule": "states = distinct byte strings executed on the real parser at mutation depth <= 1 from every root (frames with every FPort 1..255 are presented unmutated) plus every byte string of length 0..maxlen (counted exactly); depth-2 strings are counted separately as generated (duplicates possible); transitions = mutation edges applied; every state is presented under key sets {right, swapped, wrong} x counter hints {N, N+-0x10000, low half off, 0}",
+        "rule": "states = distinct byte strings executed on the real parser at mutation depth <= 1 from every root (frames with every FPort 1..255 are presented unmutated) plus every byte string of length 0..maxlen (counted exactly); depth-2 strings are counted separately as generated (duplicates possible); transitions = mutation edges applied; every root is also presented with its MIC recomputed for five counters whose low half differs from the wire counter / of the next epoch; every state is presented under key sets {right, swapped, wrong} x counter hints {N, N+-0x10000, low half off, 0}; after every successful checked decode the buffer is compared with the two-call path and decrypted again (must restore the received bytes)",
         "roots": roots.len(),
         "depth": if th { 2 } else { 1 },
         "depth2_strings_generated": depth2.load(Ordering::Relaxed),
